@@ -96,7 +96,7 @@ func cacheMain(args []string) {
 
 func runCacheCase(c J, caseNo int, full bool, emit func(J)) {
 	hist := asList(c["hist"])
-	id := fmt.Sprintf("h%d", caseNo)
+	id := asStr(c["id"])
 	rng := rand.New(rand.NewSource(int64(caseNo)))
 	dir, err := ioutil.TempDir("", "verif-cache-")
 	if err != nil {
